@@ -24,13 +24,13 @@ def version_dirs():
     return out
 
 
-def make_battle(game, version, seed, rich):
+def make_battle(game, version, seed, rich, ids=None):
     vdir = os.path.join(common.REPO, 'replay_unpack', 'clients', game, 'versions', version)
     loaded = idefs.load_views(vdir)
     if 'ok' not in loaded:
         return None, None, 'definitions do not load: %s' % loaded.get('exc', loaded.get('err'))
     rng = random.Random('battle-%s-%s-%s' % (game, version, seed))
-    b, exp = battle.build(rng, game, version, loaded['ok'], rich=rich)
+    b, exp = battle.build(rng, game, version, loaded['ok'], rich=rich, ids=ids)
     return b, exp, None
 
 
